@@ -111,7 +111,7 @@ def check(pid, tier, seed, replay=None):
             # valid streams of real events, cut at every offset
             lp = go_build("./players/logger", sc.path("lp-cbor"), overlay=ov, tags="binary_log")
             ex = L.enumerate_programs(mdir, 2, 1, emit=True, workers=1, simulate=1200 if thorough else 300, seed=seed, depth=20)
-            g = Gen(seed)
+            g = Gen(seed, binary_safe=True)
             progs = [p for p in (g.program("p%d" % i, ap) for i, ap in enumerate(L.abstract_programs(ex))) if p is not None]
             recs = run_player(lp, sc, "events", [json.dumps(p) for p in progs], shards=4, per_script=False)
             events = []
